@@ -56,6 +56,9 @@ def build_executor(flavour="hooks"):
     bdir = build_lib(flavour)
     odir = os.path.join(CACHE, "exe-%s-%s" % (flavour, repo_tag()))
     os.makedirs(odir, exist_ok=True)
+    import fcntl
+    lockf = open(os.path.join(odir, ".lock"), "w")
+    fcntl.flock(lockf, fcntl.LOCK_EX)                    # one build of this executor at a time (released when the process ends / file is collected)
     lib = os.path.join(bdir, "src", "libcellml.a")
     if not os.path.exists(lib):
         raise Broken("no static library at " + lib)
@@ -82,14 +85,17 @@ def build_executor(flavour="hooks"):
                 raise Broken("harness compile failed:\n" + p.stdout[-4000:])
     exe = os.path.join(odir, "executor")
     need = (not os.path.exists(exe)) or jobs or os.path.getmtime(exe) < os.path.getmtime(lib)
+    final_exe = exe
     if need:
+        exe = "%s.tmp.%d" % (final_exe, os.getpid())     # linked aside and renamed: a check running next to this one may be starting the old one
         # the library comes first and whole: where the harness and the library instantiate the same templates (std::regex, ...) the
         # linker keeps the first definition, and the library's own code must be what runs (a harness-side std::regex instantiation
         # with smaller stack frames hid a stack exhaustion in the printer)
         p = sh("%s %s -o %s -Wl,--whole-archive %s -Wl,--no-whole-archive %s -L/root/miniconda/lib -lxml2 -lz -Wl,-rpath,/root/miniconda/lib -lpthread" % (cxx, flags, exe, lib, " ".join(objs)), timeout=600)
         if p.returncode != 0:
             raise Broken("harness link failed:\n" + p.stdout[-4000:])
-    return exe
+        os.replace(exe, final_exe)
+    return final_exe
 
 
 # --------------------------------------------------------------------------- known findings
